@@ -31,12 +31,17 @@ I_OPEN, I_CLOSE = "/*[ITEM %s*/", "/*ITEM]*/"
 KEEP_DERIVES = {"Clone", "Copy", "PartialEq", "Eq", "Debug", "Default"}
 DROP_ATTRS = {"require", "serde", "deref", "reflect", "doc", "cfg_attr", "component", "inline"}
 
-PRELUDE = """#![allow(unused_imports, dead_code, unused_variables, unused_mut, unused_macros, non_snake_case, unreachable_patterns, unused_parens, unused_braces, unused_assignments)]
+PRELUDE = """#![feature(allocator_api)]
+#![allow(unused_imports, dead_code, unused_variables, unused_mut, unused_macros, non_snake_case, unreachable_patterns, unused_parens, unused_braces, unused_assignments)]
 macro_rules! trace { ($($t:tt)*) => { () } }
 macro_rules! debug { ($($t:tt)*) => { () } }
 macro_rules! info { ($($t:tt)*) => { () } }
 macro_rules! warn { ($($t:tt)*) => { () } }
 macro_rules! error { ($($t:tt)*) => { () } }
+// `debug_assert_eq!/ne!` expand to `core::panicking::assert_failed` (unsupported by Verus): same condition, no message.
+macro_rules! debug_assert_eq { ($a:expr, $b:expr $(,)?) => { debug_assert!($a == $b) }; ($a:expr, $b:expr, $($t:tt)+) => { debug_assert!($a == $b) } }
+macro_rules! debug_assert_ne { ($a:expr, $b:expr $(,)?) => { debug_assert!($a != $b) }; ($a:expr, $b:expr, $($t:tt)+) => { debug_assert!($a != $b) } }
+extern crate alloc;
 use vstd::prelude::*;
 """
 
@@ -44,16 +49,22 @@ use vstd::prelude::*;
 # ------------------------------------------------------------------------------------------------ sidecar
 
 class Sidecar:
-    def __init__(self, path: Path):
+    def __init__(self, paths):
+        if not isinstance(paths, (list, tuple)):
+            paths = [paths]
         self.root = []
         self.module = {}
         self.fn = {}       # name -> (retname, text)
         self.loop = {}     # (fn, n) -> text
         self.proof = {}    # (fn, where, n) -> text
         self.attr = {}     # item key -> text
+        for path in paths:
+            self._load(Path(path))
+
+    def _load(self, path):
         cur = None
         if not path.exists():
-            return
+            raise Undecided(f"sidecar {path} missing")
         for line in path.read_text().splitlines():
             if line.startswith("//@ "):
                 parts = line[4:].split()
@@ -295,8 +306,12 @@ def erase_check(gen, ref, what):
         raise Undecided(f"erase check failed for {what}: token count {len(a)} vs {len(b)}")
 
 
+def sidecars_of(unit):
+    return unit.get("sidecars") or [unit["sidecar"]]
+
+
 def build_file(unit):
-    side = Sidecar(VERIF / unit["sidecar"])
+    side = Sidecar([VERIF / p for p in sidecars_of(unit)])
     modules, manifest, drops, fnlocs = extract_items(unit, side)
     parts = [PRELUDE, "verus! {\n"]
     for s in unit.get("shims", []):
@@ -364,6 +379,19 @@ def run_verus_file(path, rlimit, extra=()):
 
 def fn_of_line(text, line):
     """Name of the function (as Type::name or name) enclosing a line of the generated file."""
+    off0 = None
+    # blank out woven regions (same length, newlines kept) so that braces inside clauses do not confuse the item parser
+    out, i = [], 0
+    while True:
+        j = text.find(W_OPEN, i)
+        if j < 0:
+            out.append(text[i:]); break
+        k = text.find(W_CLOSE, j)
+        if k < 0:
+            out.append(text[i:]); break
+        out.append(text[i:j]); out.append("".join(c if c == "\n" else " " for c in text[j:k + len(W_CLOSE)]))
+        i = k + len(W_CLOSE)
+    text = "".join(out)
     toks = R.tokenize(text)
     # cheap: walk items recursively
     off = sum(len(l) + 1 for l in text.split("\n")[:line - 1])
@@ -405,10 +433,10 @@ def run_verus_unit(unit, tier, prop):
         msg = "\n".join(d_.get("rendered", d_.get("message", "")) for d_ in errors[:5])
         raise Undecided(f"verus rejected the generated file for unit {unit['name']}:\n{msg}")
     # per function breakdown
-    per = {}
+    per = []
     for m in data.get("times-ms", {}).get("smt", {}).get("smt-run-module-times", []):
         for fb in m.get("function-breakdown", []):
-            per[fb["function"]] = fb
+            per.append((fb["function"], fb))
     # map verus names `crate::a::b::Type::f` / impl names to our keys
     declared = dict(fnlocs)
     # lemma / proof fns from the sidecar are obligations too
@@ -436,7 +464,7 @@ def run_verus_unit(unit, tier, prop):
     verified_n = vr.get("verified", 0)
     errors_n = vr.get("errors", 0)
     seen = set()
-    for vname, fb in per.items():
+    for vname, fb in per:
         key = verus_key(vname)
         seen.add(key)
         failed = fail_by_fn.get(key, [])
@@ -507,45 +535,55 @@ def map_back(text, line, unit):
 
 
 def vacuity_pass(unit, text, side, fnlocs, rlimit):
-    """Weave `ensures false` onto every contracted exec function: each must FAIL. A function that proves
-    false has a contradictory precondition or rests on an inconsistent assumption."""
+    """For every contracted exec function, separately: weave `ensures false` onto it (only it, so callers do not
+    inherit the false postcondition) and require Verus to REJECT that function. A function that proves false has a
+    contradictory precondition, diverges, or rests on an inconsistent assumption."""
+    from concurrent.futures import ThreadPoolExecutor
     targets = [k for k in side.fn if k in fnlocs and k not in unit.get("vacuity_exempt", [])]
     if not targets:
         return
-    # insert `ensures false,` clause: find each woven clause block for the function and append
-    gen = text
-    count = 0
-    for k in targets:
+    t0 = time.time()
+
+    def one(idx_k):
+        idx, k = idx_k
         clause = Sidecar.txt(side.fn[k][1])
         marker = W("\n" + clause + "\n")
-        if marker not in gen:
-            continue
+        if marker not in text:
+            return k, "nomarker"
         if re.search(r"\bensures\b", clause):
             new = re.sub(r"\bensures\b", "ensures false,", clause, count=1)
+        elif re.search(r"\bdecreases\b", clause):
+            new = re.sub(r"\bdecreases\b", "ensures false,\ndecreases", clause, count=1)
         else:
-            # place before `decreases` if any
-            if re.search(r"\bdecreases\b", clause):
-                new = re.sub(r"\bdecreases\b", "ensures false,\ndecreases", clause, count=1)
-            else:
-                new = clause + "\nensures false,"
-        gen = gen.replace(marker, W("\n" + new + "\n"), 1)
-        count += 1
-    path = gen_dir() / f"{unit['name']}.vacuity.rs"
-    path.write_text(gen)
-    rc, data, diags, err, wall, cmd = run_verus_file(path, rlimit)
-    if data is None or "verification-results" not in data:
-        raise Undecided(f"vacuity pass failed to run for {unit['name']}:\n{err[-1500:]}")
-    failed_fns = set()
-    for d_ in diags:
-        if d_.get("level") != "error": continue
-        for sp in d_.get("spans", []):
-            if sp.get("is_primary"):
-                fn = fn_of_line(gen, sp.get("line_start"))
-                if fn: failed_fns.add(fn)
-    # functions whose body diverges/returns `!`... none expected
-    proves_false = [k for k in targets if k not in failed_fns and W("\n" + Sidecar.txt(side.fn[k][1]) + "\n") in text]
-    unit["_gen"]["vacuity"] = {"functions": len(targets), "failed_as_expected": len(targets) - len(proves_false),
-                               "wall_s": round(wall, 1)}
+            new = clause + "\nensures false,"
+        gen = text.replace(marker, W("\n" + new + "\n"), 1)
+        path = gen_dir() / f"{unit['name']}_vacuity_{idx}.rs"
+        path.write_text(gen)
+        rc, data, diags, err, wall, cmd = run_verus_file(path, rlimit)
+        try:
+            if data is None or "verification-results" not in data:
+                return k, "toolfail"
+            vr = data["verification-results"]
+            if vr.get("verified", 0) + vr.get("errors", 0) == 0:
+                return k, "toolfail"
+            for d_ in diags:
+                if d_.get("level") != "error": continue
+                for sp in d_.get("spans", []):
+                    if sp.get("is_primary") and fn_of_line(gen, sp.get("line_start")) == k:
+                        return k, "rejected"
+            return k, "proves_false"
+        finally:
+            try: path.unlink()
+            except OSError: pass
+
+    with ThreadPoolExecutor(max_workers=8) as ex:
+        res = list(ex.map(one, enumerate(targets)))
+    proves_false = [k for k, r in res if r == "proves_false"]
+    toolfail = [k for k, r in res if r in ("toolfail", "nomarker")]
+    unit["_gen"]["vacuity"] = {"functions": len(targets), "rejected_as_expected": sum(1 for _, r in res if r == "rejected"),
+                               "wall_s": round(time.time() - t0, 1)}
+    if toolfail:
+        raise Undecided(f"vacuity pass failed to run for {unit['name']}: {toolfail}")
     if proves_false:
         raise Undecided(f"vacuity guard: these functions verify `ensures false` "
                         f"(contradictory requires or inconsistent assumption): {proves_false}")
@@ -559,10 +597,11 @@ def unit_assumptions(unit):
         n_as = len(re.findall(r"assume_specification|\baxiom\b|\badmit\(|\bassume\(", txt))
         out.append(f"{unit['name']}: shim {s}: {n_ext} external_body items (assumed contracts on dependency methods)"
                    + (f", {n_as} assume/admit/assume_specification" if n_as else ""))
-    side = (VERIF / unit["sidecar"]).read_text() if (VERIF / unit["sidecar"]).exists() else ""
-    for i, l in enumerate(side.splitlines(), 1):
-        if re.search(r"\bassume\(|\badmit\(|external_body|assume_specification|#\[verifier::external\]", l):
-            out.append(f"{unit['name']}: sidecar {unit['sidecar']}:{i}: {l.strip()}")
+    for sc in sidecars_of(unit):
+        side = (VERIF / sc).read_text()
+        for i, l in enumerate(side.splitlines(), 1):
+            if re.search(r"\bassume\(|\badmit\(|external_body|assume_specification|#\[verifier::external\]", l):
+                out.append(f"{unit['name']}: sidecar {sc}:{i}: {l.strip()}")
     return out
 
 
